@@ -525,16 +525,22 @@ def traced(f):
         return f(*args, **kwargs)
     return wrapper
 
+def timed(f):
+    @functools.wraps(f)
+    def wrapper(*args, **kwargs):
+        return f(*args, **kwargs)
+    return wrapper
+
 def plugin_a():
     class Listener:
-        @traced
+        {d0}
         def on_go(self{sig0}):
             return NOTE(("a", locals()))
     return Listener()
 
 def plugin_b():
     class Listener:
-        @traced
+        {d1}
         def on_go(self{sig1}):
             return NOTE(("b", locals()))
     return Listener()
@@ -547,7 +553,7 @@ class W_{k}(StateMachine):
 '''
 
 
-def run_wrapped_pair(rng, counters, violations, sigs):
+def run_wrapped_pair(rng, counters, violations, sigs, two_machines=False):
     """Two listener classes with the same __name__ (two plug-ins) whose same-named callbacks are wrapped
     by the same functools.wraps decorator (shared code object) but declare different parameters."""
     from statemachine import State, StateMachine
@@ -558,16 +564,27 @@ def run_wrapped_pair(rng, counters, violations, sigs):
     tagger = Tagger()
     s0, s1 = B.signature_source(p0), B.signature_source(p1)
     defs = "\n".join(sorted({f"DEF_{p['name']} = 'DEF_{p['name']}'" for p in p0 + p1 if p["default"]}))
-    src = defs + WRAPPED_SRC.format(k=k, sig0=(", " + s0) if s0 else "", sig1=(", " + s1) if s1 else "")
+    # the same stack of 1-3 signature-preserving decorators on both callbacks
+    stack = rng.choice([["traced"], ["traced"], ["traced", "timed"], ["timed", "traced"], ["traced", "traced"], ["traced", "timed", "traced"]])
+    deco = "\n        ".join("@" + d for d in stack)
+    counters["wrapped_pairs_stacked_decorators"] = counters.get("wrapped_pairs_stacked_decorators", 0) + (len(stack) > 1)
+    src = defs + WRAPPED_SRC.format(k=k, sig0=(", " + s0) if s0 else "", sig1=(", " + s1) if s1 else "", d0=deco, d1=deco)
     ns = {"State": State, "StateMachine": StateMachine, "NOTE": lambda t: notes.append((t[0], {a: tagger.tag(b) for a, b in t[1].items()})),
           "__name__": f"vmon_c07w_{k}"}
     exec(compile(src, f"<c07w-{k}>", "exec"), ns)
     la, lb = ns["plugin_a"](), ns["plugin_b"]()
     order = [la, lb] if rng.random() < 0.5 else [lb, la]
     late = rng.random() < 0.4
-    sm = ns[f"W_{k}"](listeners=order[:1] if late else order)
-    if late:
-        sm.add_listener(order[1])
+    sm2 = None
+    if two_machines:
+        # each plug-in listens to its own machine (two instances in one process)
+        sm = ns[f"W_{k}"](listeners=order[:1])
+        sm2 = ns[f"W_{k}"](sm.model, listeners=order[1:])
+        late = False
+    else:
+        sm = ns[f"W_{k}"](listeners=order[:1] if late else order)
+        if late:
+            sm.add_listener(order[1])
     tagger.sm, tagger.model = sm, sm.model
     for _ in range(3):
         shape = gen_shape(rng, p0 + p1)
@@ -577,7 +594,13 @@ def run_wrapped_pair(rng, counters, violations, sigs):
         v0, v1 = B.verdict(p0, shape["args"], avail), B.verdict(p1, shape["args"], avail)
         del notes[:]
         try:
+            tagger.sm = sm
             sm.go(*shape["args"], **shape["ukw"])
+            if sm2 is not None:
+                # same model object: bring it back, then drive the second machine
+                sm.send("back")
+                tagger.sm = sm2
+                sm2.go(*shape["args"], **shape["ukw"])
             outcome = "ok"
         except Exception as err:  # noqa: BLE001
             outcome = type(err).__name__ + ": " + str(err)[:100]
